@@ -468,7 +468,9 @@ func (ms MsgServer) FinalizeTokenDeposit(ctx context.Context, req *types.MsgFina
 
 	// if the deposit is failed, initiate a withdrawal
 	if !depositSuccess || !hookSuccess {
-		if depositSuccess {
+		// a zero-amount deposit minted nothing: there is nothing to reclaim, and the bank calls below
+		// panic when the recipient is a module address whose module account does not exist yet
+		if depositSuccess && coin.IsPositive() {
 			// reclaim and burn coins
 			burnCoins := sdk.NewCoins(coin)
 			if err := ms.bankKeeper.SendCoinsFromAccountToModule(ctx, toAddr, types.ModuleName, burnCoins); err != nil {
